@@ -32,7 +32,10 @@ REGEXES = ["/a b/", "//", "/a\\/b/", "/[a-z]+/", "/x(y|z)/"]
 REGEXES_NL = ["/a\nb/"]
 NUMS = ["", "", "2", "2.0", ".5", "007", "1.", "10", "100", "0.50", "1.25", "0", "0.0", "3.14159",
         "0.0000001", ".00000025", "0.000001", "1234567.125", "100000000000000000000", "000.000", "5000000"]
-NUMS_LONG = ["1234567890123456789012345678901", "0.1234567890123456789012345678901"]
+NUMS_LONG = ["1234567890123456789012345678901", "0.1234567890123456789012345678901",
+             # 17 to 28 significant digits: still exact at the precision the library normalises with
+             "1.00000000000000001", "12345678901234567", "12345678901234568", "0.12345678901234567",
+             "0.50000000000000001", "1234567890.1234567890123456"]
 NUMS_BAD = [".", "1.2.3", "..", "1..2"]
 INTS = ["", "", "1", "2", "03", "10", "0"]
 FIELDS = ["f", "title", "a.b", "author.name", "f1", "x_y", "été", "a\\:b", "f-g", "*", "a.b.c", "T12", "part12",
